@@ -707,6 +707,10 @@ def splice_loops(text, loops):
             found.append((cl + 1, kw))
     expect = loops.get("count") if loops else None
     if expect is not None and expect != len(found):
+        if loops.get("allow_missing") and len(found) == 0:
+            # every loop of the function was removed by the edit under test: verify the loop-free text without loop contracts
+            # (a deleted re-check loop must FAIL an obligation, not the extraction)
+            return text, 0
         raise LiftError("loop census: found %d loops, spec expects %d" % (len(found), expect))
     if not loops:
         return text, len(found)
